@@ -345,6 +345,13 @@ class PrimMixin:
         st.put(ref, h.replace(items))
         return v
 
+    def p_list_count(self, args, kw, st, fr, node):
+        ref, v = args
+        h = st.get(ref)
+        if isinstance(h, HList) and all(not is_sym(x) for x in h.items) and not is_sym(v):
+            return h.items.count(v)
+        raise Unsupported("list.count symbolic", node)
+
     def p_list_index(self, args, kw, st, fr, node):
         ref, v = args
         h = st.get(ref)
@@ -562,6 +569,26 @@ class PrimMixin:
 
     def p_builtin_gl_weights(self, args, kw, st, fr, node):
         return self._gl("weights", args)
+
+    def p_builtin_field_names(self, args, kw, st, fr, node):
+        h = st.get(args[0])
+        if not isinstance(h, HStruct):
+            return None
+        return tuple(h.fields.keys())
+
+    def p_builtin_field_type(self, args, kw, st, fr, node):
+        h = st.get(args[0])
+        ft = h.ftype.get(args[1])
+        if ft is None:
+            raise SpecError("field %r has no recorded type" % (args[1],))
+        return ft.code
+
+    def p_builtin_field_subshape(self, args, kw, st, fr, node):
+        h = st.get(args[0])
+        v = h.fshape.get(args[1])
+        if v is None:
+            raise SpecError("field %r has no recorded sub-array shape" % (args[1],))
+        return v
 
     def p_builtin_approx(self, args, kw, st, fr, node):
         """equality over the reals (the run-time evaluator allows floating-point rounding)"""
@@ -813,17 +840,54 @@ class PrimMixin:
 
     def np_zeros(self, args, kw, st, fr, node):
         dt = kw.get("dtype", args[1] if len(args) > 1 else None)
+        from .nplib import DTypeV
+        if isinstance(dt, DTypeV) and isinstance(dt.h, HStruct):
+            dt = self.getattr(dt, "descr", st, fr, node)
         if isinstance(dt, Ref) and isinstance(st.get(dt), HList):
-            # structured dtype given as a list of (name, type) tuples
-            fields = {}
+            # structured dtype given as a list of (name, type[, subshape]) tuples
+            from .values import FieldType
+            fields, ftype, fshape = {}, {}, {}
             n = args[0]
+            if isinstance(n, tuple):
+                if len(n) != 1:
+                    raise Unsupported("structured array of rank != 1", node)
+                n = n[0]
             self.oblige(st, to_z3(n, "int") >= 0, "safety", "nonneg-size", node, fr)
             for item in st.get(dt).items:
-                fname, ftype = item[0], item[1]
-                kind = self.dtype_kind(ftype, node)
-                fields[fname] = st.alloc(HArr(kind, n, z3.K(I, to_z3(0, kind)), fresh=True))
-            return st.alloc(HStruct(n, fields, fresh=True))
+                fname, ftyp = item[0], item[1]
+                if fname in fields:
+                    # numpy: ValueError: field 'x' occurs more than once
+                    self.raise_from_expr(st.fork(), ExcValue("ValueError"), fr)
+                    return self.kill(st, "duplicate field name")
+                kind = ftyp.kind if isinstance(ftyp, FieldType) else self.dtype_kind(ftyp, node)
+                fields[fname] = st.alloc(HArr(kind, n, z3.K(I, to_z3(0, kind) if kind != "bool" else z3.BoolVal(False)), fresh=True))
+                if isinstance(ftyp, FieldType):
+                    ftype[fname] = ftyp
+                if len(item) > 2:
+                    fshape[fname] = item[2]
+            self.use("numpy.zeros(shape, dtype=descr): a fresh zero-filled structured array whose descr is the given list (packed "
+                     "dtypes); duplicate field names raise ValueError")
+            return st.alloc(HStruct(n, fields, fresh=True, ftype=ftype, fshape=fshape))
         return self._alloc_const(args[0], self.dtype_kind(dt, node), 0, st, fr, node)
+
+    def np_dtype(self, args, kw, st, fr, node):
+        """np.dtype(descr list | dtype): only the field list matters here"""
+        from .nplib import DTypeV
+        v = args[0]
+        if isinstance(v, DTypeV):
+            return v
+        if isinstance(v, Ref) and isinstance(st.get(v), HList):
+            proto = self.np_zeros([0], {"dtype": v}, st, fr, node)
+            if isinstance(proto, Poison):
+                return proto
+            return DTypeV(proto, st.get(proto))
+        raise Unsupported("np.dtype of %s" % kind_of(v), node)
+
+    def _const_int_array(self, vals):
+        data = z3.K(I, z3.IntVal(0))
+        for k, x in enumerate(vals):
+            data = z3.Store(data, k, z3.IntVal(x))
+        return data
 
     def np_ones(self, args, kw, st, fr, node):
         dt = kw.get("dtype", args[1] if len(args) > 1 else None)
@@ -877,6 +941,8 @@ class PrimMixin:
 
     def np_array(self, args, kw, st, fr, node):
         v = args[0]
+        if isinstance(v, tuple) and v and all(isinstance(x, str) for x in v):
+            return StrArr(v)
         dt = kw.get("dtype", args[1] if len(args) > 1 else None)
         copyflag = kw.get("copy", True)
         kind = self.dtype_kind(dt, node) if dt is not None else None
@@ -956,6 +1022,9 @@ class PrimMixin:
 
     # ============================================================ numpy: searching / sorting
     def np_where(self, args, kw, st, fr, node):
+        if len(args) == 1 and isinstance(args[0], BoolTuple):
+            idx = [k for k, b in enumerate(args[0].items) if b]
+            return (st.alloc(HArr("int", len(idx), self._const_int_array(idx), fresh=True)),)
         if len(args) == 1:
             return (self.where1(args[0], st, fr, node),)
         c, a, b = args
@@ -1207,6 +1276,9 @@ class PrimMixin:
         h = st.get(a)
         if type(h).__name__ == "HBO":
             return self.bo_copy(a, st)
+        if isinstance(h, HStruct):
+            flds = {nm: self.nd_copy([r], {}, st, fr, node) for nm, r in h.fields.items()}
+            return st.alloc(HStruct(h.n, flds, fresh=True, ftype=h.ftype, fshape=h.fshape))
         if isinstance(h, HArr2):
             return st.alloc(HArr2(h.kind, h.n0, h.n1, h.data, fresh=True))
         n, t = self.arr_term(st, a)
@@ -1309,6 +1381,20 @@ class PrimMixin:
 _KEEPALIVE = []
 import itertools as _itx
 _mc = _itx.count()
+
+
+class StrArr:
+    """a numpy array of known strings (field names): only ==, where, size and indexing are used on it"""
+
+    def __init__(self, items):
+        self.items = tuple(items)
+
+
+class BoolTuple:
+    """element-wise comparison result of a StrArr"""
+
+    def __init__(self, items):
+        self.items = tuple(items)
 
 
 class IterView:
